@@ -322,6 +322,12 @@ func c15RunCase(f []string) string {
 	if (f[0] == "ttrace" || f[0] == "tmut") && len(f) >= 2 {
 		return c15TraceReplay(f)
 	}
+	if f[0] == "new" {
+		return c15New(f)
+	}
+	if f[0] == "cli" {
+		return c15Cli(f)
+	}
 	if f[0] != "follow" || len(f) < 5 {
 		return "bad-op"
 	}
@@ -640,6 +646,8 @@ func c15GenAll(r *Rand, tier string) []string {
 	for i := 0; i < nt; i++ {
 		out = append(out, c15GenTruncCase(r))
 	}
+	// the wiring: followreader.New and the command line (c15wire.go)
+	out = append(out, c15WireGenAll(r, tier)...)
 	// observation point (b): the real code runs HERE, the observed batch lengths become part of the case
 	out = append(out, c15TailGenAll(r, tier)...)
 	// trace inclusion: event logs of real TailFilesToChan / VerifOpenReaderToChan runs (c15trace.go)
@@ -660,6 +668,10 @@ func c15Stats(cases []string) map[string]int {
 		}
 		if len(f) >= 2 && (f[0] == "ttrace" || f[0] == "tmut") {
 			c15TraceStats(st, c)
+			continue
+		}
+		if len(f) >= 2 && (f[0] == "new" || f[0] == "cli") {
+			st["wiring."+f[0]]++
 			continue
 		}
 		if len(f) < 5 {
